@@ -63,7 +63,9 @@ func (w *wrapper) Invoke(ctx context.Context, method string, args any, reply any
 
 	ctx, clientServerStream, ss, cs := w.startStream(ctx, method)
 	go func() {
-		res, err := matched.Handler(w.srv, ctx, func(dst any) error {
+		// like a gRPC server's, the handler's context ends when the handler returns (ss.Context() is cancelled by
+		// Close): what the handler tied to it does not outlive the call for as long as the caller's context lives
+		res, err := matched.Handler(w.srv, ss.Context(), func(dst any) error {
 			return ss.RecvMsg(dst)
 		}, nil)
 		if err != nil {
